@@ -101,6 +101,10 @@ type Listener struct {
 
 	deregistered atomic.Bool
 	deregister   func()
+
+	// notifiedBeforeDeregistered tells whether the listener had already been notified when it was de-registered. It is
+	// written before deregisteredChan is closed and only read after deregisteredChan was seen closed.
+	notifiedBeforeDeregistered bool
 }
 
 func newListener(channel chan struct{}, deregister func()) *Listener {
@@ -114,6 +118,12 @@ func newListener(channel chan struct{}, deregister func()) *Listener {
 // Deregister the listener to clean up memory in case it was not de-registered yet.
 func (l *Listener) Deregister() {
 	if !l.deregistered.Swap(true) {
+		select {
+		case <-l.channel:
+			l.notifiedBeforeDeregistered = true
+		default:
+		}
+
 		close(l.deregisteredChan)
 		l.deregister()
 	}
@@ -132,6 +142,16 @@ func (l *Listener) Wait(ctx context.Context) error {
 	// we wait either until the channel got closed or the context is done
 	select {
 	case <-l.channel:
+		// The channel is shared by all listeners of the value and select picks at random among the ready cases: a
+		// listener that was de-registered before Notify was called must not report success.
+		select {
+		case <-l.deregisteredChan:
+			if !l.notifiedBeforeDeregistered {
+				return ErrListenerDeregistered
+			}
+		default:
+		}
+
 		return nil
 	case <-l.deregisteredChan:
 		return ErrListenerDeregistered
